@@ -6,6 +6,8 @@ pub mod c03;
 #[cfg(feature = "full")]
 pub mod c03_mut;
 #[cfg(feature = "full")]
+pub mod c01;
+#[cfg(feature = "full")]
 pub mod c02;
 #[cfg(feature = "full")]
 pub mod c13;
@@ -58,6 +60,7 @@ pub fn registry() -> Vec<Prop> {
     ];
     #[cfg(feature = "full")]
     {
+        v.push(Prop { id: "C01", run: c01::run, replay: c01::replay, rule: c01::RULE, full: true, child: None });
         v.push(Prop { id: "C02", run: c02::run, replay: c02::replay, rule: c02::RULE, full: true, child: None });
         v.push(Prop { id: "C13", run: c13::run, replay: c13::replay, rule: c13::RULE, full: true, child: None });
         v.push(Prop { id: "C14", run: c14::run, replay: c14::replay, rule: c14::RULE, full: true, child: None });
